@@ -10,6 +10,10 @@ pub fn short_double_sha256_checksum(data: &[u8]) -> Vec<u8> {
 /// Given the string return the checked base58 value
 pub fn decode_base58_checksum(input: &str) -> Result<Vec<u8>, ChainGangError> {
     let decoded: Vec<u8> = input.from_base58().map_err(|e| ChainGangError::Base58Error(format!("{:?}",e)))?;
+    if decoded.len() < 4 {
+        let msg = format!("Base58 string not long enough to hold a checksum: {}", decoded.len());
+        return Err(ChainGangError::BadData(msg));
+    }
     // Return all but the last 4
     let shortened: Vec<u8> = decoded.as_slice()[..decoded.len() - 4].to_vec();
     // Return last 4
